@@ -106,8 +106,12 @@ func c05Snap(n *idr.Node) *model.HNode {
 }
 
 func c05Observe(sch omniparser.Schema, input []byte, maxRecords int) c05Obs {
+	return c05ObserveFrom(sch, bytes.NewReader(input), maxRecords)
+}
+
+func c05ObserveFrom(sch omniparser.Schema, input io.Reader, maxRecords int) c05Obs {
 	o := c05Obs{}
-	tr, err := sch.NewTransform("c05", bytes.NewReader(input), &transformctx.Ctx{})
+	tr, err := sch.NewTransform("c05", input, &transformctx.Ctx{})
 	if err != nil {
 		o.Term, o.Err = "fatal", "NewTransform: "+err.Error()
 		return o
@@ -385,6 +389,17 @@ func checkC05(c c05Case) obs.Result {
 	exp, violation, known := c05One(sch, c.H, c.Units, c.R)
 	if violation != "" {
 		return obs.Violationf("%s", violation)
+	}
+	// the verdict of the matcher (what is delivered, how the input ends) must not depend on what happens to be buffered:
+	// the same bytes one at a time, with the final byte returned together with io.EOF
+	if known == "" {
+		input := c.H.RenderUnits(c.Units, c.R)
+		whole := c05Observe(sch, input, len(c.Units))
+		bytewise := c05ObserveFrom(sch, run.NewChunkReader(input, run.Schedule{Sizes: []int{1}, EOFWithData: true}), len(c.Units))
+		if fmt.Sprintf("%+v", whole) != fmt.Sprintf("%+v", bytewise) {
+			return obs.Violationf("delivered byte by byte the same input gives another outcome:\n  whole:    %+v\n  bytewise: %+v\nformat=%s\nfile_declaration=%s\ninput=%q",
+				whole, bytewise, c.H.Format, c05JSON(c.H.FileDecl(c.R)), input)
+		}
 	}
 	cl := c05HierClasses(c.H)
 	if exp.Fatal {
